@@ -51,7 +51,7 @@ def tables_match_property : Prop :=
                 ['n','o','u','v','e','a','u'], ['v','i','e','u','x']] ∧
   euphonicFr = euphonieFrTable.map (·.1) ∧
   prevocalicOnly = [['c','e','t'], ['b','e','l'], ['f','o','l'], ['m','o','l'], ['n','o','u','v','e','l'], ['v','i','e','i','l']] ∧
-  vowelsFr = ['a','e','i','o','u','y','à','â','é','è','ê','ë','î','ï','ô','ö','ù','ü'] ∧
+  vowelsFr = ['a','e','i','o','u','y','à','â','é','è','ê','ë','î','ï','ô','ö','ù','ü','œ','æ'] ∧
   contrFr ['à'] ['l','e'] = some ['a','u'] ∧ contrFr ['à'] ['l','e','s'] = some ['a','u','x'] ∧
   contrFr ['d','e'] ['l','e'] = some ['d','u'] ∧ contrFr ['d','e'] ['l','e','s'] = some ['d','e','s']
 
